@@ -32,6 +32,7 @@
 #include <dlfcn.h>
 #include <errno.h>
 #include <sys/stat.h>
+#include <ucontext.h>
 
 /* the library first (its statics are reachable, and it sees the same header order as in its own build) */
 #include "mir.c"
@@ -430,18 +431,30 @@ static int h_chk_protect (void *p, size_t len, MIR_mem_protect_t prot, void *ud)
 static struct MIR_alloc h_alloc = {h_chk_malloc, h_chk_calloc, h_chk_realloc, h_chk_free, NULL};
 static struct MIR_code_alloc h_code_alloc = {h_chk_map, h_chk_unmap, h_chk_protect, NULL};
 
+/* freed blocks are filled with 0xDD: a pointer loaded from a freed block is 0xDDDD…, non-canonical,
+   and dereferencing it raises a general protection fault (si_code SI_KERNEL, si_addr 0) */
+static int h_poison_p (uint64_t v) { return v - 0xDDDDDDDDDDD00000ull < 0x2000000ull; }
+
 static void h_segv (int sig, siginfo_t *si, void *uc) {
-  (void) uc;
   h_region_t *r = h_region_of (si->si_addr);
+  int poison = 0;
   if (r != NULL) {
     h_ev ("W", 2, (uintptr_t) si->si_addr, 1, 0, 0);
     h_label ("SIGSEGV store to code page without write access");
   } else {
-    h_label (sig == SIGSEGV ? "SIGSEGV elsewhere" : "fatal signal");
+    ucontext_t *u = uc;
+    if (sig == SIGSEGV || sig == SIGBUS) {
+      poison = h_poison_p ((uintptr_t) si->si_addr);
+      for (int i = 0; i < NGREG && !poison; i++)
+        if (i != REG_EFL && i != REG_CSGSFS && i != REG_ERR && i != REG_TRAPNO && i != REG_OLDMASK && i != REG_CR2)
+          poison = si->si_code == SI_KERNEL && h_poison_p ((uint64_t) u->uc_mcontext.gregs[i]);
+    }
+    h_label (poison ? "SIGSEGV through a pointer read from a freed block (0xDD poison)"
+                    : sig == SIGSEGV ? "SIGSEGV elsewhere" : "fatal signal");
   }
   h_ev ("X", 2, (uint64_t) sig, (uintptr_t) si->si_addr, 0, 0);
   h_flush ();
-  _exit (r != NULL ? 9 : 8);
+  _exit (r != NULL ? 9 : poison ? 10 : 8);
 }
 
 /* ------------------------------------------------------------------ history state */
@@ -787,6 +800,40 @@ static void h_step_run (const char *fname, long arg) {
   }
   h_run_active = 0;
   fflush (stdout);
+  H_Q ();
+}
+
+/* label-reference data: (a) every label insn an lref item points to must still be a live block of the
+   user allocator (a freed one is a dangling reference the interpreter/generator will read);
+   (b) items named p<k>_<sum> / q<k> are built so that their loaded values add up to <sum> */
+static void h_step_lrefcheck (int values_p) {
+  h_need_ctx ();
+  for (MIR_module_t m = DLIST_HEAD (MIR_module_t, *MIR_get_module_list (h_ctx)); m != NULL;
+       m = DLIST_NEXT (MIR_module_t, m))
+    for (MIR_item_t it = DLIST_HEAD (MIR_item_t, m->items); it != NULL; it = DLIST_NEXT (MIR_item_t, it)) {
+      MIR_lref_data_t lr;
+      if (it->item_type != MIR_lref_data_item) continue;
+      lr = it->u.lref_data;
+      if (h_tab_find (lr->label) == NULL) h_ev ("D", 2, (uintptr_t) lr->label, 1, 0, 0);
+      if (lr->label2 != NULL && h_tab_find (lr->label2) == NULL) h_ev ("D", 2, (uintptr_t) lr->label2, 2, 0, 0);
+      if (values_p && lr->name != NULL && lr->name[0] == 'p' && it->addr != NULL) {
+        long k = -1, sum = 0;
+        char qn[32];
+        if (sscanf (lr->name, "p%ld_m%ld", &k, &sum) == 2)
+          sum = -sum; /* names cannot contain '-' */
+        else if (sscanf (lr->name, "p%ld_%ld", &k, &sum) != 2)
+          continue;
+        snprintf (qn, sizeof (qn), "q%ld", k);
+        for (MIR_item_t jt = DLIST_HEAD (MIR_item_t, m->items); jt != NULL; jt = DLIST_NEXT (MIR_item_t, jt))
+          if (jt->item_type == MIR_lref_data_item && jt->u.lref_data->name != NULL
+              && strcmp (jt->u.lref_data->name, qn) == 0 && jt->addr != NULL) {
+            int64_t v1, v2;
+            memcpy (&v1, it->addr, 8);
+            memcpy (&v2, jt->addr, 8);
+            if (v1 + v2 != sum) h_ev ("D", 4, 0, 3, (uint64_t) k, (uint64_t) (v1 + v2));
+          }
+      }
+    }
   H_Q ();
 }
 
@@ -1187,6 +1234,40 @@ static void h_step_code (const char *opsfile) {
       h_puts (text);
       h_putc ('\n');
       h_ev ("R", 1, 0, 0, 0, 0);
+    } else if (strcmp (op, "updpb") == 0) {
+      /* relocation that starts exactly at (z % 8 == 0) or straddles (otherwise) a page boundary inside
+         a published piece; base is deliberately unaligned (y % 8) */
+      uint8_t *a = NULL, *base;
+      size_t n = 0, nloc = 1;
+      uintptr_t bnd = 0;
+      MIR_code_reloc_t rel[2];
+      char text[256];
+      int tp;
+      uint64_t old;
+      for (int k = 0; k < npub; k++) {
+        a = pub[(x + (size_t) k) % (size_t) npub].h_a;
+        n = pub[(x + (size_t) k) % (size_t) npub].h_n;
+        bnd = ((uintptr_t) a + 32 + h_ps - 1) / h_ps * h_ps;
+        if (bnd + 16 <= (uintptr_t) a + n) break;
+        a = NULL;
+      }
+      if (a == NULL) continue;
+      base = a + y % 8;
+      rel[0].offset = bnd - z % 8 - (uintptr_t) base;
+      memcpy (&old, base + rel[0].offset, 8);
+      rel[0].value = (void *) (uintptr_t) (old ^ 0xa5a5a5a5a5a5a5a5ull);
+      tp = snprintf (text, sizeof (text), "cupdate %lu %zu", (unsigned long) (uintptr_t) base, rel[0].offset);
+      if (z % 3 == 0 && rel[0].offset >= 16) {
+        rel[1].offset = (rel[0].offset / 2) & ~(size_t) 7;
+        memcpy (&old, base + rel[1].offset, 8);
+        rel[1].value = (void *) (uintptr_t) (old ^ 0xa5a5a5a5a5a5a5a5ull);
+        tp += snprintf (text + tp, sizeof (text) - (size_t) tp, " %zu", rel[1].offset);
+        nloc = 2;
+      }
+      _MIR_update_code_arr (ctx, base, nloc, rel);
+      h_puts (text);
+      h_putc ('\n');
+      h_ev ("R", 1, 0, 0, 0, 0);
     } else
       h_die (3, "bad code op %s", op);
     H_Q ();
@@ -1245,6 +1326,7 @@ int main (int argc, char **argv) {
     else if (strcmp (st, "link") == 0) h_step_link (a1, a2 ? atoi (a2) : 2);
     else if (strcmp (st, "genall") == 0) h_step_genall (a1 ? atoi (a1) : 2);
     else if (strcmp (st, "run") == 0) h_step_run (a1 ? a1 : "main", a2 ? atol (a2) : 10);
+    else if (strcmp (st, "lrefcheck") == 0) h_step_lrefcheck (a1 != NULL && a1[0] == 'v');
     else if (strcmp (st, "genfinish") == 0) h_step_genfinish ();
     else if (strcmp (st, "finish") == 0) h_step_finish ();
     else if (strcmp (st, "varr") == 0) h_step_varr (a1);
